@@ -913,6 +913,23 @@ func TestVerifC20_Witnesses(t *testing.T) {
 			}
 			return m.stop(0, true)
 		}},
+		{"C20:stop-after-many-failed-attempts", func(m *c20Machine) error {
+			// subscribe; offer(42); eleven failed attempts in a row; stop while the retrieval keeps
+			// failing. Whatever the loop does between attempts (an implementation may pace its retries),
+			// the stream has to end promptly on stop also after a long run of failures.
+			if err := m.subscribe(1); err != nil {
+				return err
+			}
+			if err := m.offer(0); err != nil {
+				return err
+			}
+			for i := 0; i < 11; i++ {
+				if err := m.release(m.subs[0], "transient"); err != nil {
+					return err
+				}
+			}
+			return m.stop(0, true)
+		}},
 		{c20SigNotFound, func(m *c20Machine) error {
 			// subscribe; offer(42); the retrieval fails with "data not found", then succeeds
 			if err := m.subscribe(1); err != nil {
